@@ -71,22 +71,25 @@ def _cmp(ctx, name, got, refv, scale, fac=512, mask=None):
 
 
 def _raw_scale_for(ref, pts=None, grid=None, order=0):
-    """Scale arrays shaped like value (without the NURBS weight component)."""
+    """Rounding scales shaped like the value (without the NURBS weight component).  For NURBS the scales follow the
+    quotient rule with absolute values: v = |N|/W, d1 = |N'|/W + v |W'|/W, d2 = |N''|/W + 2 d1 |W'|/W + v |W''|/W."""
     sc = _scales(ref, pts=pts, grid=grid, order=order)
     if not ref.nurbs:
         return sc
+    W = np.maximum(sc[0][..., -1:], 1e-300)       # sum |basis| |w_i| = W itself (weights are positive)
+    sN = [s[..., :-1] for s in sc]
+    sW = [s[..., -1:] for s in sc]
     out = []
-    # for NURBS use a conservative bound: (sum of all raw scales) * (1 + 1/minW)^k
-    kw = dict(pts_xyz=pts) if pts is not None else dict(grid=grid)
-    Wabs = sc[0][..., -1:]
-    wmin = np.maximum(Wabs, 1e-300)
-    tot = sum(s.max(axis=-1, keepdims=True) if s.ndim > 0 else s for s in sc)
-    for k in range(order + 1):
-        s = tot / wmin * (1.0 + tot / wmin) ** k
-        s = np.broadcast_to(s, sc[0][..., :-1].shape)
-        if ref.scalar_nurbs:
-            s = s[..., 0]
-        out.append(s)
+    v = sN[0] / W
+    out.append(v)
+    if order >= 1:
+        d1 = sN[1] / W + v * sW[1] / W
+        out.append(d1)
+    if order >= 2:
+        d2 = sN[2] / W + 2 * d1 * sW[1] / W + v * sW[2] / W
+        out.append(d2)
+    if ref.scalar_nurbs:
+        out = [s[..., 0] for s in out]
     return out
 
 
